@@ -40,6 +40,7 @@ def run(ctx):
 
     cfgs = BK.pg_configs(ctx.tier, ctx.seed)
     res = common.run_parallel(BK.pg_task, cfgs)
+    res += common.run_parallel(BK.pg_alpha_task, [(2, 0.0, p, ctx.seed) for p in ("bootstrap", "semi-adapted", "fully-adapted")] + [(2, 0.2, "semi-adapted", ctx.seed)])
     ok = all(r_["ok"] for r_ in res)
     ctx.add_bounded("exact-kernel oracle (particle Gibbs)", "all trees on n<=3 data points, N=2 particles, 3 proposals x {run, library} wiring x outliers on/off x thresholds {0.5,1}",
                     sum(r_["n_paths"] for r_ in res), sum(r_["n_states"] for r_ in res), ok,
